@@ -270,7 +270,7 @@ Fixpoint yield_children (n : node) (bp : string) (lc : loc) (kd : hkind) (seen :
              let lc' := (lc ++ [RIdx idx])%list in
              if negb (o_valias o) && is_excl am then go r (S idx) seen1
              else
-               do hs <- (if is_seq_or_map ele then yield_children ele tmp lc' kd seen1
+               do hs <- (if is_container ele then yield_children ele tmp lc' kd seen1
                          else Ok ([mkhit tmp lc' (HChild kd)], seen1));
                let '(h, seen2) := hs in
                do rs <- go r (S idx) seen2;
@@ -294,14 +294,30 @@ Fixpoint yield_children (n : node) (bp : string) (lc : loc) (kd : hkind) (seen :
                if (negb (o_kalias o) && is_excl ka) || (negb (o_valias o) && is_excl va)
                then go r (S pos) seen2
                else
-                 do hs <- (if is_seq_or_map val then yield_children val tmp lc' kd seen2
+                 do hs <- (if is_container val then yield_children val tmp lc' kd seen2
                            else Ok ([mkhit tmp lc' (HChild kd)], seen2));
                  let '(h, seen3) := hs in
                  do rs <- go r (S pos) seen3;
                  let '(h', seen4) := rs in
                  Ok ((h ++ h')%list, seen4)
          end) kvs 0 seen
-  | _ => Ok ([mkhit (root_slash bp) lc (HChild kd)], seen)
+  | NSet _ els =>
+      let pre := map_prefix bp in
+      (fix go (l : list node) (seen : list string) : outcome res :=
+         match l with
+         | [] => Ok ([], seen)
+         | key :: r =>
+             let tmp := pre ++ escp (key_text key) in
+             let lc' := (lc ++ [member_ref key])%list in
+             do ka_s <- search_anchor key seen (o_kalias o);
+             let '(ka, seen1) := ka_s in
+             if negb (o_kalias o) && is_excl ka then go r seen1
+             else
+               do rs <- go r seen1;
+               let '(h', seen2) := rs in
+               Ok (mkhit tmp lc' (HChild kd) :: h', seen2)
+         end) els seen
+  | NLeaf _ _ => Ok ([mkhit (root_slash bp) lc (HChild kd)], seen)
   end.
 
 (* "if expand_children: yield from yield_children(...) else: yield tmp_path" *)
@@ -312,7 +328,7 @@ Definition report (nd : node) (tmp : string) (lc : loc) (kd : hkind) (seen : lis
 
 (* the merge-key tail of the mapping branch *)
 Definition ymk_hits (pre : string) (lc : loc) (oi : N) : outcome (list hit) :=
-  if o_valias o then
+  if o_valias o && o_anchors o then
     foldM (fun (acc : list hit) (ref_node : node) =>
              foldM (fun (acc : list hit) (an : string * node) =>
                       if data_eqb (snd an) ref_node then
@@ -343,13 +359,12 @@ Fixpoint search_for_paths (n : node) (bp : string) (lc : loc) (seen : list strin
                 | AliasExcluded => Ok ([], seen1)
                 | AMatch | AliasIncluded => report ele tmp lc' HValAnchor seen1
                 | _ =>
-                    if is_container ele then search_for_paths ele tmp lc' seen1
+                    if (match am with UnsearchableAlias => true | _ => false end) && negb (o_valias o)
+                    then Ok ([], seen1)
+                    else if is_container ele then search_for_paths ele tmp lc' seen1
                     else if o_values o then
-                      if (match am with UnsearchableAlias => true | _ => false end) && negb (o_valias o)
-                      then Ok ([], seen1)
-                      else
-                        do m <- term_matches (key_val ele);
-                        Ok (if m then [mkhit tmp lc' HVal] else [], seen1)
+                      do m <- term_matches (key_val ele);
+                      Ok (if m then [mkhit tmp lc' HVal] else [], seen1)
                     else Ok ([], seen1)
                 end);
              let '(h, seen2) := hs in
@@ -368,40 +383,40 @@ Fixpoint search_for_paths (n : node) (bp : string) (lc : loc) (seen : list strin
                else
                  let tmp := pre ++ escp (key_text key) in
                  let lc' := (lc ++ [key_ref key])%list in
-                 do va_s <- search_anchor val seen (o_valias o);
-                 let '(va, seen1) := va_s in
-                 (* the key part: Some result = `continue` was reached *)
-                 do kpart <-
-                   (if o_keys o then
-                      do ka_s <- search_anchor key seen1 (o_kalias o);
-                      let '(ka, seen2) := ka_s in
-                      if is_hit ka then
-                        do hs <- report val tmp lc' HKeyAnchor seen2; Ok (Some hs, seen2)
-                      else
-                        do m <- term_matches (key_val key);
-                        if m then do hs <- report val tmp lc' HKey seen2; Ok (Some hs, seen2)
-                        else Ok (None, seen2)
-                    else Ok (None, seen1));
-                 let '(kres, seen2) := kpart in
+                 do ka_s <- search_anchor key seen (o_kalias o);
+                 let '(ka, seen1) := ka_s in
+                 do va_s <- search_anchor val seen1 (o_valias o);
+                 let '(va, seen2) := va_s in
                  do hs <-
-                   (match kres with
-                    | Some hs => Ok hs
-                    | None =>
-                        match va with
-                        | AliasExcluded => Ok ([], seen2)
-                        | AMatch | AliasIncluded => report val tmp lc' HValAnchor seen2
-                        | _ =>
-                            if is_container val then search_for_paths val tmp lc' seen2
-                            else if o_values o then
+                   (if negb (o_kalias o) && is_excl ka then Ok ([], seen2)
+                    else
+                      (* the key part: Some result = `continue` was reached *)
+                      do kres <-
+                        (if o_keys o then
+                           if is_hit ka then
+                             do hs <- report val tmp lc' HKeyAnchor seen2; Ok (Some hs)
+                           else
+                             do m <- term_matches (key_val key);
+                             if m then do hs <- report val tmp lc' HKey seen2; Ok (Some hs)
+                             else Ok None
+                         else Ok None);
+                      match kres with
+                      | Some hs => Ok hs
+                      | None =>
+                          match va with
+                          | AliasExcluded => Ok ([], seen2)
+                          | AMatch | AliasIncluded => report val tmp lc' HValAnchor seen2
+                          | _ =>
                               if (match va with UnsearchableAlias => true | _ => false end)
                                  && negb (o_valias o)
                               then Ok ([], seen2)
-                              else
+                              else if is_container val then search_for_paths val tmp lc' seen2
+                              else if o_values o then
                                 do m <- term_matches (key_val val);
                                 Ok (if m then [mkhit tmp lc' HVal] else [], seen2)
-                            else Ok ([], seen2)
-                        end
-                    end);
+                              else Ok ([], seen2)
+                          end
+                      end);
                  let '(h, seen3) := hs in
                  do rs <- go r (S pos) seen3;
                  let '(h', seen4) := rs in
@@ -421,7 +436,8 @@ Fixpoint search_for_paths (n : node) (bp : string) (lc : loc) (seen : list strin
              do ka_s <- search_anchor key seen (o_kalias o);
              let '(ka, seen1) := ka_s in
              do h <-
-               (if is_hit ka then Ok [mkhit tmp lc' HMemberAnchor]
+               (if negb (o_kalias o) && is_excl ka then Ok []
+                else if is_hit ka then Ok [mkhit tmp lc' HMemberAnchor]
                 else do m <- term_matches (key_val key);
                      Ok (if m then [mkhit tmp lc' HMember] else []));
              do rs <- go r seen1;
